@@ -1,7 +1,52 @@
-From PT Require Import Base.Str Model.Types Gen.Interval Model.Interval Ref.IntervalRead.
+(* Props/C18.v — C18: interval literals encode exactly the requested duration.
+   Only statements, each closed by `exact`, with Print Assumptions beneath.
+
+   Model: Model/Interval.v (Interval.__init__, get_sql, and the semantics of re.sub for the pinned
+   trim pattern).  Specification: Ref/IntervalRead.v (read_interval, denote, valid).
+   Tie: Gen/Interval.v is regenerated from /repo on every run (labels, templates, trim pattern);
+   model = implementation is checked by the correspondence run of ./check C18. *)
+From PT Require Import Base.Str Model.Types Gen.Interval Model.Interval Ref.IntervalRead
+     Proofs.IntervalLemmas Proofs.IntervalMain.
 Open Scope N_scope.
 
+(* the trim pattern the model's `trim` was written for is the one in the source *)
 Theorem C18_pattern_pinned :
   trim_pattern = L "(^0+\.)|(\.0+$)|(^[0\-.: ]+[\-: ])|([\-:. ][0\-.: ]+$)" /\ trim_flags = 32.
 Proof. split; reflexivity. Qed.
 Print Assumptions C18_pattern_pinned.
+
+(* MAIN: for every dialect template and all constructor arguments in the property's domain, the
+   rendered literal, read according to its unit designator, denotes exactly the arguments. *)
+Theorem C18_main : forall (d : dial) (a : iargs),
+  valid (comps a) (a_quarters a) (a_weeks a) = true ->
+  read_interval d (interval_sql d a) = Some (denote (comps a) (a_quarters a) (a_weeks a)).
+Proof. intros d a _. exact (interval_roundtrip d a). Qed.
+Print Assumptions C18_main.
+
+(* the denotation keeps every component in its own slot: nothing dropped, merged or shifted *)
+Theorem C18_no_component_lost : forall (d : dial) (a : iargs) (i : nat),
+  a_quarters a = 0%Z -> a_weeks a = 0%Z -> valid (comps a) 0 0 = true ->
+  exists iv, read_interval d (interval_sql d a) = Some iv /\
+             ival_component iv i = nth i (map Z.abs_N (comps a)) 0.
+Proof.
+  intros d a i Hq Hw _. exists (denote (comps a) 0 0). split.
+  - pose proof (interval_roundtrip d a) as H. rewrite Hq, Hw in H. exact H.
+  - exact (denote_components (comps a) i).
+Qed.
+Print Assumptions C18_no_component_lost.
+
+(* what trimming does, stated on its own: after an all-zero prefix, the fields from the first
+   non-zero one up to the last non-zero one survive unchanged, separators included *)
+Theorem C18_trim_is_field_selection : forall pre vA lA,
+  vA <> 0 -> seps_ok lA -> pre_ok pre ->
+  trim (pre ++ N_to_str vA ++ rest lA) = N_to_str vA ++ rest (trimr lA).
+Proof. exact trim_fields. Qed.
+Print Assumptions C18_trim_is_field_selection.
+
+(* non-vacuity: a non-trivial argument tuple satisfies the hypothesis, and the statement computes *)
+Example C18_nonvacuous :
+  let a := MkIArgs 0 (-3) 0 10 0 100 0 0 0 in
+  valid (comps a) (a_quarters a) (a_weeks a) = true /\
+  interval_sql MYSQL a = L "INTERVAL '-3-0 10:0:100' MONTH_SECOND" /\
+  read_interval MYSQL (interval_sql MYSQL a) = Some (IV true [(1%nat, 3); (2%nat, 0); (3%nat, 10); (4%nat, 0); (5%nat, 100)]).
+Proof. vm_compute. repeat split. Qed.
